@@ -883,6 +883,7 @@ func (te *TemplateEngine) cloneDocument(source *Document) *Document {
 			Relationships: make([]Relationship, len(source.documentRelationships.Relationships)),
 		}
 		copy(doc.documentRelationships.Relationships, source.documentRelationships.Relationships)
+		doc.stylesRelationshipID = source.stylesRelationshipID
 	}
 
 	// 复制内容类型
